@@ -21,7 +21,8 @@ import (
 //
 // ops:
 //   session cap=<C> [wcache=<bytes>] [pr=<parallel reads>] [pw=<parallel writes>] [dl=<KB/s>] [ul=<KB/s>]
-//                                       -> ok | err | panic:<msg>
+//                                       -> ok dl=<capacity>:<quantum>:<fillInterval ns>|- ul=… | err | panic:<msg>
+//        (dl/ul: how NewSession configured the global rate-limit buckets; `-` = limit disabled)
 //   add name=<t> urls=<letters>         -> sources=<K> | err | panic:slice | panic:<msg>
 //        one letter per url-list entry: h = http://, s = https://, f = ftp:// (unsupported, filtered),
 //        u = udp:// (unsupported); `urls=-` = no url-list; `form=s` encodes a single URL as a string
@@ -116,7 +117,14 @@ func (c *wscapCase) open(m map[string]string) (out string) {
 	}
 	c.s = s
 	c.cfg = cfg
-	return "ok"
+	dl, ul, dlOK, ulOK := s.VerifBucketParams()
+	show := func(p [3]int64, ok bool) string {
+		if !ok {
+			return "-"
+		}
+		return fmt.Sprintf("%d:%d:%d", p[0], p[1], p[2])
+	}
+	return "ok dl=" + show(dl, dlOK) + " ul=" + show(ul, ulOK)
 }
 
 func (c *wscapCase) closeSession() {
@@ -175,7 +183,7 @@ func execWscap(ops []string) []string {
 		case "reopen":
 			c.closeSession()
 			o := c.open(m)
-			if o != "ok" {
+			if !strings.HasPrefix(o, "ok") {
 				obs = append(obs, o)
 				continue
 			}
@@ -228,7 +236,7 @@ func genWscap(r *Rng, n int, tier string) []Case {
 	for i := 0; i < n; i++ {
 		cp := r.Pick(0, 1, 2, 3, 5, 9, 10, 11, 20, r.Range(0, 24))
 		ops := []string{fmt.Sprintf("session cap=%d wcache=%d pr=%d pw=%d dl=%d ul=%d", cp,
-			r.Pick(0, 1, 16384, 1<<20), r.Pick(1, 1, 2, 10), r.Pick(1, 1, 2, 10), r.Pick(0, 0, 1, 50), r.Pick(0, 0, 1, 50))}
+			r.Pick(0, 1, 16384, 1<<20), r.Pick(1, 1, 2, 10), r.Pick(1, 1, 2, 10), r.Pick(0, 0, 1, 50, 1000, r.Range(1, 200000)), r.Pick(0, 0, 1, 50, 1000, r.Range(1, 200000)))}
 		na := r.Range(1, 5)
 		for k := 0; k < na; k++ {
 			cnt := r.Pick(0, 1, cp-1, cp, cp+1, 9, 10, 11, r.Range(0, 30))
